@@ -3,6 +3,7 @@ package mon
 import (
 	"fmt"
 	"math/rand/v2"
+	"net/url"
 	"runtime"
 	"strings"
 	"sync"
@@ -209,7 +210,7 @@ func sameSet(a, b []string) bool {
 }
 
 func runC14(e *Env) {
-	e.Rule = "sequential: ALL operation sequences of a fixed length over {Set,Get,Has,Delete}x3 keys + Len, capacities 0..4, run in lock-step with a list-based reference LRU (return value, Len, key order via the verif hook, stored values, structural invariant after every step) + random longer sequences over 2..6 keys; router level: caching routers over generated tables, after every dynamic request the front key must be method+normalised path (GET key for HEAD fallback), the repeat must be served from the cache (same instance, Len unchanged), size <= capacity always; concurrent: short histories from 4..8 goroutines checked for linearizability against the sequential LRU with porcupine. Non-trivial: a sequence with an eviction, a hit or a delete of a present key; distinct by (capacity, sequence) / (table, history)."
+	e.Rule = "sequential: ALL operation sequences of a fixed length over {Set,Get,Has,Delete}x3 keys + Len, capacities 0..4, run in lock-step with a list-based reference LRU (return value, Len, key order via the verif hook, stored values, structural invariant after every step) + random longer sequences over 2..6 keys; router level: caching routers over generated tables, after every dynamic request the front key must be method+normalised path (GET key for HEAD fallback), the repeat must be served from the cache (same instance, Len unchanged), size <= capacity always (a quarter of these routers use UseEncodedPath: the key is the escaped spelling); concurrent: short histories from 4..8 goroutines checked for linearizability against the sequential LRU with porcupine. Non-trivial: a sequence with an eviction, a hit or a delete of a present key; distinct by (capacity, sequence) / (table, history)."
 	e.Assumptions = []string{
 		"Has counts as a read (it is one of the operations the statement quantifies over, and 'a key just read is the most recent'): it must refresh recency like Get",
 		"values are distinct *Route instances, so a read identifies the write it observed",
@@ -345,9 +346,10 @@ func c14RouterCase(t *T) {
 	capacity := pick(r, []int{0, 1, 2, 3, 5, 1000})
 	notAllowed := chance(r, 1, 4)
 	viaEnable := chance(r, 1, 4)
+	encoded := chance(r, 1, 4) // UseEncodedPath: the dispatcher looks up (and caches under) the escaped spelling of the URL path
 	var hist []string
 	t.Describe(func() any {
-		return map[string]any{"routes": tb.Describe(), "capacity": capacity, "handle_method_not_allowed": notAllowed, "history": hist}
+		return map[string]any{"routes": tb.Describe(), "capacity": capacity, "handle_method_not_allowed": notAllowed, "UseEncodedPath(requests through ServeHTTP only)": encoded, "history": hist}
 	})
 	var opts []func(*rux.Router)
 	if viaEnable {
@@ -357,6 +359,10 @@ func c14RouterCase(t *T) {
 	}
 	if notAllowed {
 		opts = append(opts, rux.HandleMethodNotAllowed)
+	}
+	if encoded {
+		opts = append(opts, rux.UseEncodedPath)
+		t.Count("router.use_encoded_path", 1)
 	}
 	router := BuildRouter(tb, opts...)
 	cache := router.VerifCachedRoutes()
@@ -379,7 +385,11 @@ func c14RouterCase(t *T) {
 	for i := 0; i < n; i++ {
 		path := pick(r, pool).Path
 		method := pick(r, []string{"GET", "GET", "GET", "POST", "HEAD", "PUT", "DELETE"})
-		npath, ok := RefNormalize(path, false)
+		lookup := path
+		if encoded {
+			lookup = (&url.URL{Path: path}).EscapedPath()
+		}
+		npath, ok := RefNormalize(lookup, false)
 		if !ok {
 			continue
 		}
@@ -390,7 +400,7 @@ func c14RouterCase(t *T) {
 			want, _ = tb.Resolve("GET", npath, false)
 			keyMethod = "GET"
 		}
-		useServe := chance(r, 1, 3)
+		useServe := encoded || chance(r, 1, 3)
 		var route *rux.Route
 		if useServe {
 			if _, pv, p := Serve(router, NewReq(method, path)); p {
@@ -452,7 +462,7 @@ func c14RouterCase(t *T) {
 		// immediate repeat: served from the cache
 		before := cache.Len()
 		cached, _ := cache.VerifPeek(key)
-		r2, ps2, _ := router.Match(method, path)
+		r2, ps2, _ := router.Match(method, lookup) // (Match takes the lookup string itself: with UseEncodedPath that is the escaped spelling)
 		if r2 == nil {
 			t.Fail("repeat-lost", "repeat of %s %q found no route", method, path)
 			return
@@ -794,7 +804,9 @@ func c14RouterConcurrentCase(t *T) {
 			reqs = append(reqs, rq{m, pb.Path, km + np, w >= 0 && !tb.Routes[w].Pat.IsStatic()})
 		}
 	}
-	t.Describe(func() any { return map[string]any{"routes": tb.Describe(), "capacity": 1000, "goroutines": 8, "requests": len(reqs)} })
+	t.Describe(func() any {
+		return map[string]any{"routes": tb.Describe(), "capacity": 1000, "goroutines": 8, "requests": len(reqs)}
+	})
 	t.AutoSample()
 	if len(reqs) == 0 {
 		return
